@@ -31,12 +31,14 @@ UNIVERSES = {
     'big': dict(chems=['Water', 'Ethanol', 'Methanol', 'Glycerol', 'Propanol', 'Octane', 'Hexane', 'Butanol'],
                 aliases={'Aqua': 'Water', 'EtOH': 'Ethanol', 'C8': 'Octane'},
                 groups={'Alc': (['Ethanol', 'Methanol', 'Propanol', 'Butanol'], [[1, 4], [1, 4], [1, 4], [1, 4]]),
-                        'HC': (['Hexane', 'Octane'], [[1, 4], [3, 4]]), 'Mix': (['Butanol', 'Water', 'Glycerol'], [[1, 2], [1, 4], [1, 4]])},
+                        'HC': (['Hexane', 'Octane'], [[1, 4], [3, 4]]), 'Mix': (['Butanol', 'Water', 'Glycerol'], [[1, 2], [1, 4], [1, 4]]),
+                        'Lean': (['Octane', 'Glycerol', 'Ethanol'], [[3, 4], [0, 1], [1, 4]])},      # a member with zero share
                 phases=['g', 'l', 's'], multi=True),
     'big1': dict(chems=['Water', 'Ethanol', 'Methanol', 'Glycerol', 'Propanol', 'Octane', 'Hexane', 'Butanol'],
                  aliases={'Aqua': 'Water', 'EtOH': 'Ethanol', 'C8': 'Octane'},
                  groups={'Alc': (['Ethanol', 'Methanol', 'Propanol', 'Butanol'], [[1, 4], [1, 4], [1, 4], [1, 4]]),
-                         'HC': (['Hexane', 'Octane'], [[1, 4], [3, 4]]), 'Mix': (['Butanol', 'Water', 'Glycerol'], [[1, 2], [1, 4], [1, 4]])},
+                         'HC': (['Hexane', 'Octane'], [[1, 4], [3, 4]]), 'Mix': (['Butanol', 'Water', 'Glycerol'], [[1, 2], [1, 4], [1, 4]]),
+                         'Lean': (['Octane', 'Glycerol', 'Ethanol'], [[3, 4], [0, 1], [1, 4]])},
                  phases=['x'], multi=False),
 }
 
@@ -233,6 +235,20 @@ class World:
                     raise KeyError(op)
         except Exception as e:
             exc = type(e).__name__
+        # the sparse storage must only hold integer positions inside the array: anything else is reported as a failure of the
+        # call and removed so that the state can still be read
+        n = len(self.universe['chems'])
+        rows = self.ind.data.rows if self.universe['multi'] else [self.ind.data]
+        for row in rows:
+            bad = [k for k in list(row.dct) if not (isinstance(k, (int, np.integer)) and 0 <= k < n)]
+            for k in bad:
+                del row.dct[k]
+                exc = 'CorruptStorage'
+        if res is not None:
+            try:
+                tensor(res)
+            except Exception:
+                res, exc = None, 'UnreadableResult'
         sizes = dict(cacheC=len(self.chemicals._index_cache),
                      cacheM=len(getattr(self.ind, '_index_cache', {})) if self.universe['multi'] else 0)
         return dict(exc=exc, res=dict(nd=-1, e=[]) if res is None else tensor(res), cache_sizes=sizes)
